@@ -13,6 +13,8 @@ import ast
 from ..astutil import U, view, arg_or_kw, kwarg, stmt_index, names_in, loop_as_comprehension
 from ..callgraph import CallGraph
 from ..cfg import walk_no_nested
+
+IMG = "droplets.image_analysis"
 from ..core import Ctx
 from ..model import dotted
 
@@ -713,6 +715,41 @@ def check_independent_items(ctx: Ctx, fi, fv, it_expr, site, rule="PARMAP"):
                "receive the state of a later frame while the lazy serial branch sees each frame in turn")
 
 
+def check_argument_containers(ctx: Ctx, rule="EFFECT"):
+    """The analysis functions do not modify dictionaries or lists that the caller passed in (refine_args, least_squares_params,
+    kwargs …).  In a serial run every task sees the object the caller owns — entries written for one call are still there in the
+    next — while every parallel task works on a pickled copy: the result of a repeated call then depends on the process count."""
+    m = ctx.model
+    n = 0
+    MUT = {"setdefault", "update", "pop", "popitem", "clear", "append", "extend", "insert", "remove", "sort", "reverse"}
+    for q in (f"{IMG}.refine_droplet", f"{IMG}.refine_droplets", f"{IMG}.locate_droplets", "droplets.emulsions.EmulsionTimeCourse.from_storage"):
+        if not m.has_func(q):
+            continue
+        fi = m.func(q)
+        fv = view(m, fi)
+        params = set(fi.all_params) - {"self", "cls"}
+        bad = None
+        for s_ in fv.statements():
+            sites = []
+            for x in walk_no_nested(s_):
+                if isinstance(x, ast.Call) and isinstance(x.func, ast.Attribute) and x.func.attr in MUT and isinstance(x.func.value, ast.Name) and x.func.value.id in params:
+                    sites.append((x.func.value.id, x))
+            tg = s_.targets if isinstance(s_, ast.Assign) else ([s_.target] if isinstance(s_, ast.AugAssign) else (s_.targets if isinstance(s_, ast.Delete) else []))
+            for t_ in tg:
+                if isinstance(t_, ast.Subscript) and isinstance(t_.value, ast.Name) and t_.value.id in params:
+                    sites.append((t_.value.id, s_))
+            for nm, node_ in sites:
+                # still (possibly) the caller's object here?
+                defs = fv.defs_reaching(nm, fv.node_of(s_))
+                if any(d_ is fv.cfg.entry for d_ in defs):
+                    bad = bad or (node_, nm)
+        n += 1
+        ctx.decide(bad is None, rule, f"{q}:argument-containers", (fi, bad[0]) if bad else fi, "no dictionary or list received from the caller is modified",
+                   f"`{U(bad[0])[:60] if bad else ''}` modifies `{bad[1] if bad else ''}`, an object the caller passed in: serial runs (and repeated calls) see the entries left behind by earlier calls while every parallel "
+                   "task gets a fresh copy, e.g. refine_args={'tolerance': 1e-2, 'least_squares_params': d} followed by the same call with tolerance 1e-12 gives another radius with one process than with two")
+    return n
+
+
 def check_pickle_writable(ctx: Ctx, rule="PICKLE"):
     """Candidates cross the process boundary by pickling.  The droplet classes keep their state in one numpy record; a record
     pickled on its own comes back as a scalar that silently discards item assignments (contract of numpy.record), so every
@@ -928,6 +965,7 @@ def check(ctx: Ctx):
     check_forwarding(ctx)
     check_pickle_writable(ctx)
     check_failure_propagates(ctx)
+    check_argument_containers(ctx)
     # a task may not write to the image or to anything reached from it (the grid and its class-level tables are shared by all
     # tasks of a serial run but copied for every parallel task)
     from ..rules import refine as _refine
@@ -945,7 +983,7 @@ def check(ctx: Ctx):
     _pur.check_mutable_defaults(ctx, ("droplets.image_analysis", "droplets.emulsions", "droplets.droplets", "droplets.droplet_tracks", "droplets.trackers"))
     ctx.expect("MUTDEFAULT", 5)
     ctx.expect("PARMAP", 16)
-    ctx.expect("EFFECT", 3)
+    ctx.expect("EFFECT", 7)
     ctx.expect("SHARED", 2)
     ctx.expect("PICKLE", 1)
     ctx.expect("FORWARD", 2)
